@@ -76,6 +76,11 @@ CHECKS = {
         text="Every consumed stream is checked for length, order and termination against its source and for per-event isolation of data and errors; the four refusal classes must raise the documented exception before any event is consumed.",
         note="Sequential async-for consumption; events are root objects of the subscription type whose identity determines the world's outcomes, so a result mapped to the wrong event is distinguishable.",
         design="4/C17"),
+    "C11": dict(
+        technique="runtime monitor on build_schema: the canonical structural description of every built schema (canon) is compared with the description of the generating schema IR (members in document order, wrappers, R-COERCE defaults, descriptions, deprecations, directives, roots) across random extension splits and definition shuffles; closure invariant asserted on every result; labelled invalid documents must raise only schema/SDL errors",
+        text="Each observed build is decided against the IR it was rendered from; order independence follows from comparing every shuffle with the same expectation; 35 labelled invalid document classes check the exception discipline.",
+        note="Two mechanisms are listed known findings (defaults coerced before extensions are merged; defaults nesting a literal of their own input type).",
+        design="4/C11"),
 }
 
 PENDING_REASON = "check not built yet in this session (planned: see DESIGN.md section 4); no claim is made"
